@@ -337,6 +337,24 @@ func genC03(tier, out string, sum *Summary) {
 		}
 	}
 	words("", 4)
+	// text that is nearly a number, wherever a number is read: to_number, literals, data, index positions
+	for k, x := range numberish(tier) {
+		run("to_number(@)", x, "numberish")
+		if !strings.ContainsAny(x, "`\\") {
+			run("`"+x+"`", nil, "numberish")
+		}
+		if k%3 == 0 {
+			run(pick([]string{"@ + `1`", "abs(@)", "[@, @] | sort(@)", "@ == @", "sum([@])", "to_string(@)", "find_first('abc', 'b', @)", "split('a,b', ',', @)", "replace('aaa', 'a', 'b', @)"}), json.Number(x), "numberish")
+			run("a["+x+"]", intDoc, "numberish")
+		}
+	}
+	// every token directly after a complete operand, in every context (a table indexed by token type must cover
+	// the whole enumeration)
+	for _, tok := range []string{"$x", "$", "@", "`1`", "'r'", "\"q\"", "name", "1", "-1", "&", "&&", "||", "|", "!", "!=", "==", "<", "<=", ">", ">=", "+", "-", "*", "/", "//", "%", ".", ".*", "[", "[?", "[]", "[*]", "]", "(", ")", "{", "}", ",", ":", "=", "let", "in", "*"} {
+		for _, ctx := range []string{"foo %s", "@ %s", "$a %s", "[foo %s]", "abs(foo %s)", "foo[?bar %s]", "let $a = foo %s = bar in $a", "{k: foo %s}", "foo[0] %s", "foo.* %s", "'s' %s", "`1` %s", "(a) %s", "a[1:2] %s", "a || b %s", "!a %s"} {
+			quiet(strings.Replace(ctx, "%s", tok, 1), nil, "token-after-operand")
+		}
+	}
 	// deep nesting (bounded here; the crash at ~10^6 is exercised by the thorough tier in a child process)
 	for _, depth := range []int{100, 1000, 5000} {
 		run(strings.Repeat("(", depth)+"a"+strings.Repeat(")", depth), genDoc(), "deep")
@@ -470,6 +488,41 @@ func genC04(tier, out string, sum *Summary) {
 	for _, ws := range []string{" ", "\t", "\n", "\r", " \t\r\n "} {
 		for _, v := range []string{"a", "a.b", "a | b", "[0]", "`1`", "'x'", "abs(a)"} {
 			emit(ws+v+ws, "valid")
+		}
+	}
+	// text between backticks is a literal exactly when it is JSON: leading zeros, bare exponents, signs and the
+	// words other number parsers accept are not
+	for _, x := range numberish(tier) {
+		if strings.ContainsAny(x, "`\\") {
+			continue
+		}
+		vd := func(t string) string {
+			if json.Valid([]byte(t)) {
+				return "valid"
+			}
+			return "invalid"
+		}
+		emit("`"+x+"`", vd(x))
+		if len(x) <= 3 {
+			emit("a[?b == `"+x+"`]", vd(x))
+			emit("{k: `["+x+"]`}", vd("["+x+"]"))
+		}
+	}
+	// the binding list of a let: one or more "$name = expression" separated by single commas, then "in"
+	for _, e := range []string{"let $a = foo, in $a", "let $a = foo, $b = bar, in [$a, $b]", "[let $a = foo, in $a]", "let $a = foo,, $b = bar in $a", "let , $a = foo in $a", "let $a = foo $b = bar in $a", "let $a foo in $a", "let $a = in $a",
+		"let $a = foo in", "let = foo in a", "let $a == foo in $a", "let $a = foo, $b in $a", "let $a = foo; in $a", "let $a = foo in in $a", "let let $a = foo in $a", "let $a = foo, b = bar in $a", "let a = foo in a", "let $a = foo | in $a",
+		"let $a = foo in $a in $a", "let $a = foo) in $a", "let ($a = foo) in $a", "let $a = foo in $a,", "let $a, $b = foo in $a", "let $a = foo in $a $a", "let $a = foo, in", "let in x", "let , in x", "let $ = foo in $", "let $a = foo : $b = bar in $a", "x[?let $a = @, in $a]", "abs(let $a = x, in $a)"} {
+		emit(e, "invalid")
+	}
+	for _, e := range []string{"let $a = foo in $a", "let $a = foo, $b = bar in [$a, $b]", "let $a = foo ,$b = bar in $a", "let $a=foo,$b=bar in $a", "let $a = let $b = x in $b in $a", "let $a = foo in let $b = $a in $b", "let $let = a in $let", "let $in = a in $in", "let $a = a.b in $a.c", "let $a = a in [$a][0]"} {
+		emit(e, "valid")
+	}
+	for _, e := range []string{"let $a = a in in", "let $a = let in let", "let $a = in in $a", "a.let", "a.in", "{let: a}", "{in: a}", "let.a", "in.a"} {
+		emit(e, "unknown")
+	}
+	for _, tok := range []string{"$x", "$", "@", "`1`", "'r'", "\"q\"", "name", "1", "-1", "&", "!", "(", "{", "*", "let", "in", "=", ":"} {
+		for _, ctx := range []string{"foo %s", "@ %s", "$a %s", "[foo %s]", "abs(foo %s)", "foo[?bar %s]", "let $a = foo %s = bar in $a", "{k: foo %s}", "foo[0] %s", "foo.* %s", "'s' %s", "`1` %s", "(a) %s", "a[1:2] %s", "a || b %s", "!a %s"} {
+			emit(strings.Replace(ctx, "%s", tok, 1), "unknown")
 		}
 	}
 	// bounded-exhaustive short strings over the characters that matter to the lexer: the model decides membership
